@@ -178,6 +178,8 @@ func genForms(c *core.Check, emit func(Program) bool) {
 		"class A{static static=1}return A.static", "class A{static get=2}return A.get", "class A{static async=3}return A.async", "class A{get=1;set=2;async=3;static=4}return new A", "class A{static;get;set;async}return Object.keys(new A)", "class A{static\nget\nx(){return 1}}return [new A().x,Object.getOwnPropertyNames(A)]", "class A{1=2}return new A", "class A{'a b'=2}return new A", "class A{1(){return 2}}return new A()[1]()", "class A{static 1(){return 2}}return A[1]()", "class A{static 0x10=1}return A[16]", "class A{static 1e3=1}return A[1000]", "class A{static .5=1}return A[.5]", "class A{static 1n(){return 1}}return A[1]()",
 		"class A{static async 1(){}}return Object.getOwnPropertyNames(A)", "class A{static*1(){}}return Object.getOwnPropertyNames(A)", "class A{static get'x'(){return 1}}return A.x", "class A{static'x'=1}return A.x", "class A{static[a]=1;static[b](){}}return Object.getOwnPropertyNames(A)", "class A{static#p=1;static g(){return A.#p}}return A.g()", "class A{'constructor'(){h1(1)}}new A;return 1", "class A{static'prototype2'=1}return A.prototype2",
 		"return {1:1}", "return {0x10:1}", "return {1e3:1}", "return {.5:1}", "return {1n:1}", "return {'1':1,1:2}", "return {get 1(){return 1}}", "return {async 1(){}}", "return {*1(){}}", "return {1(){return 1}}[1]()", "return {async:1,get:2,set:3,static:4}", "return {async(){return 1},get(){return 2},set(){return 3}}.get()", "return {get get(){return 1}}.get", "return {'a':1,'a-b':2,'1a':3,'if':4}",
+		// built-in calls the minifier rewrites, with an unknown number of arguments
+		"return [Math.pow(3,...[a,2]),Math.pow(...[3,2]),Math.trunc(...[1.5]),isNaN(...['x']),Math.abs(...[-2]),Number(...[true])]", "var q=[a,b];return [Math.pow(2,...q),Math.abs(...q),isNaN(...q),Math.trunc(...q)]",
 		// numeric literals as conditions
 		"if(0xb0)h1(1);else h1(2)", "if(0xe0)h1(1);else h1(2)", "if(0xE)h1(1);else h1(2)", "return 0xb?1:2", "return !0xb", "return 0x0b&&a", "return 0xen?1:2", "return 0Xe||a", "while(0xb){h1(1);break}", "for(;0xe;){h1(1);break}", "do{h1(1)}while(!0xb)", "return 0b0?1:2", "return 0o0?1:2", "return 0x0?1:2", "return 0x0n?1:2", "return 0b1?1:2", "return 0o7?1:2", "return 0x00?1:2", "return 00?1:2", "return 08?1:2", "return 0.0e1?1:2", "return .0?1:2", "return 0.?1:2", "return 0_0?1:2", "return 0x0_0?1:2", "return 1_0?1:2", "return 0n?1:2", "return 0e5?1:2", "return 0E0?1:2", "return 0.1e-400?1:2", "return '0'?1:2", "return ' '?1:2", "return ``?1:2", "return `${''}`?1:2", "return -0?1:2", "return +0?1:2", "return ~0?1:2", "return [-0?1:2,!-0,!~-1]",
 	}
